@@ -273,6 +273,14 @@ theorem step_pb (s : St) (op : Op) (hi : Inv s) (hp : PB s) : PB (step s op).1 :
       repeat' split at hd
       all_goals first | (cases hd; exact inv_defs_irrelevant_pb s _ hp) | cases hd
     · exact hp
+  | deldef k sc =>
+    simp only [step]
+    split
+    · rename_i s' hd
+      unfold deleteDefinedName at hd
+      repeat' split at hd
+      all_goals first | (cases hd; exact inv_defs_irrelevant_pb s _ hp) | cases hd
+    · exact hp
   | setcell n v =>
     simp only [step]
     split
@@ -494,6 +502,8 @@ theorem setSheetName_err (s : St) (hi : Inv s) (hp : PB s) (a b : Name) (e : Err
             · cases h
           · cases h
 
+@[simp] theorem fact_deleteDefinedNameByScope : Facts.C16.deleteDefinedNameByScope = true := rfl
+
 @[simp] theorem fact_definedNameScopeResolved : Facts.C16.definedNameScopeResolved = true := rfl
 
 theorem setDefinedName_err (s : St) (k : Nat) (sc : Name) (e : Err) (h : setDefinedName s k sc = .error e) : ¬ Bad e := by
@@ -576,6 +586,16 @@ theorem step_not_bad (s : St) (op : Op) (hi : Inv s) (hp : PB s) (e : Err) (h : 
     · rename_i e' hn
       cases h
       exact setDefinedName_err s _ _ _ hn
+  | deldef k sc =>
+    simp only [step] at h
+    split at h
+    · cases h
+    · rename_i e' hn
+      cases h
+      unfold deleteDefinedName at hn
+      simp only [fact_deleteDefinedNameByScope, Bool.not_true, Bool.false_eq_true, if_false] at hn
+      repeat' split at hn
+      all_goals first | (cases hn; exact not_bad_of_ne (by decide) (by decide)) | cases hn
   | setcell n v =>
     simp only [step] at h
     split at h
